@@ -12,23 +12,26 @@ LEVEL_TEXT = ("Lean 4 theorems for every matrix / ragged array with rows of leng
               "intervals); row selection (slice / list / mask / integer), element access, integer columns on the ragged variant, "
               "row-wise sum / any / all / max, column sums (global stable sort of boundary differences), column counts, ravel, "
               "concatenation and unary / scalar / column ufuncs with operand order respected decode to the same operation on the "
-              "dense rows. Column RANGES (rl[rows, a:b:s]), argmax, mean and the matrix variant's any(axis=0) are tied by the "
-              "correspondence only. Correspondence: all matrices <= 3x4 over 2 letters, ragged arrays with lengths >= 1, the full "
+              "dense rows. Column RANGES rl[rows, a:b:s] on the ragged variant (the 70-line case analysis of _getitem_tuple + "
+              "_step_subset + remove_empty_intervals, modelled row by row) decode, on the property's domain -- the slice is non-empty "
+              "in every selected row, and for a negative step the bounds lie inside the row -- to CPython's slice of every selected "
+              "dense row (C17_col_range, C17_col_range_row); outside that domain the code is wrong and two machine-checked "
+              "counterexamples say so. argmax, mean and the matrix variant's any(axis=0) are tied by the correspondence only. Correspondence: all matrices <= 3x4 over 2 letters, ragged arrays with lengths >= 1, the full "
               "selector grammar restricted to the property's domain, all listed functions, against numpy on the dense data.")
 LEVEL_NOTE = ("Trusted: Lean kernel (+ standard axioms); the model is written against the list-of-rows meaning of the RaggedArray "
               "operations these classes use (C02-C09 theorems) and tied by correspondence (no pinned test touches this module); float "
-              "sum/mean follow F16a. Column ranges, _col_any, argmax, mean: correspondence-only facets in this round.")
+              "sum/mean follow F16a. _col_any, argmax, mean: correspondence-only facets.")
 TECHNIQUE = "Lean 4 proof of per-row decode = dense semantics for constructors, selection, reductions, ufuncs; correspondence"
-DESIGN_REF = "6.17"
-LEAN_MODULES = ["NpsVerif.Props.C17A", "NpsVerif.Props.C17B"]
+DESIGN_REF = "7"
+LEAN_MODULES = ["NpsVerif.Props.C17A", "NpsVerif.Props.C17B", "NpsVerif.Props.C17C"]
 KERNELS = ()
 RULE = ("cases = input (matrix r x c <= 3x4 over 2-3 letters exhaustive-sampled / ragged array with row lengths 1..4 / interval list) "
         "x class (RunLength2dArray, RunLengthRaggedArray) x operation (to_array, len/shape/size, row int / slice / list / mask, "
         "element, integer column, column range with positive step (any bounds, non-empty result) or negative step (bounds inside "
-        "the rows), row-wise sum any all max mean argmax, column sum / mean / counts / any, ravel, concatenate, np.sum/mean/max, "
+        "the rows; 700 extra stepped column-range cases per quick run), row-wise sum any all max mean argmax, column sum / mean / counts / any, ravel, concatenate, np.sum/mean/max, "
         "unary / scalar / column ufunc on either side); distinct = distinct (input, class, operation); non-trivial = >= 2 rows or >= 2 runs")
 EXHAUSTIVE = {"quick": False, "thorough": False}
-CORRESPONDENCE_ONLY = ["column ranges rl[rows, a:b:s]", "argmax / mean", "any(axis=0) of the matrix variant", "np.where on ragged run-length arrays"]
+CORRESPONDENCE_ONLY = ["argmax / mean", "any(axis=0) of the matrix variant", "np.where on ragged run-length arrays"]
 ASSUMPTIONS = ["rows have length >= 1 (the property's domain)"]
 
 ROW_OPS = ["to_array", "meta", "row_int", "rows", "element", "sum", "any", "all", "unary", "scalar", "column", "col_sum"]
@@ -120,7 +123,9 @@ def cases(rng, tier):
                 break
             else:
                 a, b, s = None, None, None
-            p.update(a=a, b=b, s=s, rsel=rng.choice([{"t": "all"}, {"t": "slice", "a": None, "b": None, "k": -1}, {"t": "slice", "a": None, "b": None, "k": 2}]))
+            p.update(a=a, b=b, s=s, rsel=rng.choice([{"t": "all"}, {"t": "slice", "a": None, "b": None, "k": -1}, {"t": "slice", "a": None, "b": None, "k": 2},
+                                                     {"t": "list", "is": [rng.randint(-r, r - 1) for _ in range(rng.randint(1, 3))]},
+                                                     {"t": "mask", "bs": [True] + [rng.random() < 0.6 for _ in range(r - 1)]}]))
         elif f == "scalar":
             p.update(c=rng.randint(0 if p["dtype"] == "uint8" else -3, 9), side=rng.choice(["left", "right"]), uf=rng.choice(["subtract", "add", "multiply", "less", "maximum"]))
         elif f == "column":
@@ -302,7 +307,7 @@ def oracle(p):
         return refuse()
 
 
-LEAN_F = {"to_array", "row_int", "rows", "element", "col_int", "sum", "max", "any", "all", "col_sum", "col_counts", "ravel", "concat", "unary", "scalar", "column"}
+LEAN_F = {"to_array", "row_int", "rows", "element", "col_int", "sum", "max", "any", "all", "col_sum", "col_counts", "ravel", "concat", "unary", "scalar", "column", "col_range"}
 
 
 def lean_request(p):
@@ -313,7 +318,7 @@ def lean_request(p):
         return None
     if f == "col_int" and p["rsel"]["t"] != "all":
         return None
-    if f in ("col_counts", "ravel", "concat", "max", "col_int") and p["cls"] != "ragged":
+    if f in ("col_counts", "ravel", "concat", "max", "col_int", "col_range") and p["cls"] != "ragged":
         return None
     inp = p["inp"]
     kind = inp["kind"]
@@ -324,7 +329,7 @@ def lean_request(p):
     else:
         req = dict(inp)
     req.update(op="RL2.run", f=f)
-    for k in ("i", "j", "sel", "c", "side", "col"):
+    for k in ("i", "j", "sel", "c", "side", "col", "a", "b", "s", "rsel"):
         if k in p:
             req[k] = p[k]
     if f in ("any", "all"):
